@@ -25,7 +25,8 @@ def run_fortran(sources, std=None, timeout=60, flags=()):
         p = subprocess.run(cmd, cwd=d, capture_output=True, text=True, timeout=timeout)
         if p.returncode != 0:
             return False, '', p.stderr
-        r = subprocess.run(['./a.out'], cwd=d, capture_output=True, text=True, timeout=timeout)
+        env = dict(os.environ, ASAN_OPTIONS='detect_leaks=0')
+        r = subprocess.run(['./a.out'], cwd=d, capture_output=True, text=True, timeout=timeout, env=env)
         return r.returncode == 0, r.stdout, r.stderr
     except subprocess.TimeoutExpired:
         return False, '', 'timeout'
